@@ -120,15 +120,34 @@ fn ddmin<T: Clone>(mut items: Vec<T>, test: &mut dyn FnMut(&[T]) -> bool) -> Vec
 
 /// Removes ops by index set, dropping/remapping `Cancel` references.
 fn keep_ops(ops: &[Op], keep: &[usize]) -> Vec<Op> {
+    // scenario validity is preserved: a request / save / close only for a document that is
+    // open at that point, a cancel only for a request that is kept
+    let mut open: std::collections::BTreeSet<&String> = Default::default();
+    let mut kept_idx: Vec<usize> = Vec::new();
     let mut out = Vec::new();
     for &i in keep {
         match &ops[i] {
             Op::Cancel { op } => {
-                if let Some(new) = keep.iter().position(|k| k == op) {
+                if let Some(new) = kept_idx.iter().position(|k| k == op) {
                     out.push(Op::Cancel { op: new });
+                    kept_idx.push(i);
                 }
             }
-            o => out.push(o.clone()),
+            Op::Open { path, .. } | Op::Change { path, .. } => {
+                open.insert(path);
+                out.push(ops[i].clone());
+                kept_idx.push(i);
+            }
+            Op::Request { path, .. } | Op::Save { path } | Op::Close { path } => {
+                if open.contains(path) {
+                    out.push(ops[i].clone());
+                    kept_idx.push(i);
+                }
+            }
+            o => {
+                out.push(o.clone());
+                kept_idx.push(i);
+            }
         }
     }
     out
